@@ -443,6 +443,10 @@ def no_receivers(prefix, family, caps=(1, 2), fut=False):
         variants = []
         variants.append(([1], [sends("tx", 101, 3, api=snd), [S("drop", "rx")]]))
         variants.append(([2], [sends("tx", 101, 2, api=snd), [S("drop", "rx")], [S("unsub", "rxb")]]))
+        # both handles of the last stream receive something and leave at the same time: what they took must not be
+        # destroyed again at teardown, what they left must be
+        variants.append(([2], [sends("tx", 101, 3, api=snd), [S("recv", "rx"), S("drop", "rx")],
+                               [S("recv", "rxb"), S("unsub", "rxb")]]))
         if family == "bcast":
             variants.append(([1, 1], [sends("tx", 101, 2, api=snd), [S("drop", "rx")], [S("drop", "s2")]]))
         if fut:
